@@ -63,10 +63,10 @@ class Handler:
         return await work(*args, **kwargs)
 
     def on_end(self, task_id):
-        ACTIVE.cbs.append(("handler.on_end", task_id))
+        ACTIVE.cbs.append(("handler.on_end", task_id, "same object" if self is handler else "A COPY"))
 
     async def on_cancel(self, task_id):
-        ACTIVE.cbs.append(("handler.on_cancel", task_id))
+        ACTIVE.cbs.append(("handler.on_cancel", task_id, "same object" if self is handler else "A COPY"))
 
     @classmethod
     def cls_on_end(cls, task_id):
